@@ -40,7 +40,12 @@ inductive Payload
   | jsonCut  -- application/json, the body ends with a read error
   | jsonHang -- application/json, the body never comes: the read returns when the request's context ends
   | sse      -- text/event-stream with the response event, complete
+  | sseOpen  -- text/event-stream: a priming event with an id, then the stream stays open without events
+  | sseCutH  -- text/event-stream: a priming event with an id, then a clean end; the resumption GETs are accepted, never answered
+  | sseCutT  -- the same, but every resumption GET fails in transport (the retry budget runs out)
   | other    -- another content type
+  | accepted -- 202 Accepted, no body, no content type (what a notification gets)
+  | strictRefused -- (strict mode, after normalisation) a notification answered with a status other than 202/204
   deriving DecidableEq, Repr
 
 /-- the peer's answer to one POST -/
@@ -61,12 +66,14 @@ structure Scn where
   ts : TS := .fine
   /-- the caller's context ends while the message is still on its way (the harness: one virtual hour after the start) -/
   cancel : Bool := false
+  /-- ClientSession.Close is called while the message is on its way (the harness: 500 ms / 5 s after the start) -/
+  close : Bool := false
   a1 : Ans := .terr
   a2 : Ans := .terr
   deriving DecidableEq, Repr
 
 inductive EKind
-  | terr | ctx | auth | tokenSource | rpc | transient (c : Nat) | gone | status (c : Nat) | mismatch | ctype | body | decode
+  | terr | ctx | auth | tokenSource | reconnect | unexpectedStatus | rpc | transient (c : Nat) | gone | status (c : Nat) | mismatch | ctype | body | decode
   deriving DecidableEq, Repr
 
 /-- how the message ends for its sender -/
@@ -104,6 +111,7 @@ def afterResponse (cancel : Bool) (k : Kind) : Ans → End × Conn
     else (.err (.status c), .dead)                            -- c.fail
   | .ok p sid =>
     if !sid then (.err .mismatch, .dead)                      -- "mismatching session IDs": a plain write error
+    else if p == .strictRefused then (.err .unexpectedStatus, .dead)  -- strict: "unexpected status code … from non-call"
     else match k with
       | .notif => (.done, .usable)                            -- body closed; a status other than 202/204 is only logged (non-strict)
       | .call =>
@@ -115,9 +123,23 @@ def afterResponse (cancel : Bool) (k : Kind) : Ans → End × Conn
         | .jsonHang =>                                        -- Write has returned; the caller waits in Await(ctx);
           if cancel then (.err .ctx, .usable)                 -- handleJSON: `ctx.Err() != nil`: return, no c.fail
           else (.blocked, .usable)
+        | .sseOpen =>                                         -- handleSSE/processStream waits for the next event
+          if cancel then (.err .ctx, .usable) else (.blocked, .usable)
+        | .sseCutH =>                                         -- handleSSE -> connectSSE: the GET is in flight for ever
+          if cancel then (.err .ctx, .usable) else (.blocked, .usable)
+        | .sseCutT => (.err .reconnect, .dead)                -- connectSSE: budget exhausted: c.fail("failed to reconnect")
         | .other => (.err .ctype, .dead)                      -- "unsupported content type"
+        | .accepted => (.err .ctype, .dead)                   -- a call answered 202 without a body: unsupported content type ""
+        | .strictRefused => (.err .unexpectedStatus, .dead)
   | .terr => (.err .terr, .usable)
   | .hang => (.blocked, .usable)
+
+/-- the answer leaves a CALL waiting for a body / an event / a reconnection that does not come -/
+def bodyWaits (k : Kind) : Ans → Bool
+  | .ok .jsonHang true => k == .call
+  | .ok .sseOpen true => k == .call
+  | .ok .sseCutH true => k == .call
+  | _ => false
 
 /-- doRequest with a request bound to a context that ends iff `ends`; `cancel`: the caller's context ends -/
 def attempt (ends cancel : Bool) (k : Kind) : Ans → End × Conn
@@ -156,6 +178,10 @@ def run (s : Scn) : Out :=
 /-- Close: the session is deleted on the server (HTTP DELETE) unless the connection failed with ErrSessionMissing —
 the server has already said that the session is gone -/
 def deleteAtClose (r : Out) : Bool := r.end_ != .err .gone
+
+/-- ClientSession.Close = jsonrpc2 Connection.Close: it refuses new calls at once and WAITS for the message that is on
+its way (it cancels nothing); the transport is closed afterwards. It returns iff the message ends. -/
+def closeReturns (r : Out) : Bool := r.end_ != .blocked
 
 /-- the scenario hypothesis: a `st` answer carries a status outside 2xx -/
 def ansOK : Ans → Bool
